@@ -34,9 +34,13 @@ def Liab (s : St) : Prop := ∀ p ∈ s.seqH, ∃ (ra : Nat) (r : Rollapp) (i : 
   SeqOf s p.1 ra ∧ getRa s ra = some r ∧ r.states[i]? = some st ∧ st.creator = p.1 ∧ st.finalized = false ∧
     st.start ≤ p.2 ∧ p.2 ≤ st.last
 
+/-- the creator of every recorded state is a sequencer of that rollapp -/
+def Creators (s : St) : Prop := ∀ id r, getRa s id = some r → ∀ st ∈ r.states, SeqOf s st.creator id
+
 structure J (s : St) : Prop where
   prop : PropRa s
   liab : Liab s
+  creators : Creators s
 
 -- ---------------------------------------------------------------- SeqOf / SeqMono
 
@@ -213,6 +217,17 @@ theorem Good.J {s s' : St} (g : Good s s') (h : J s) : J s' := by
     have hf := eraseNext_fields k2
     exact ⟨ra, r', i, st', g.seqMono _ _ h1, g1, k1, hf.1.trans h4, hf.2.2.2.1.trans h5, by rw [hf.2.1]; exact h6,
       by rw [eraseNext_last k2]; exact h7⟩
+  · intro id r' hg st' hst'
+    cases hs : getRa s id with
+    | none => rw [(g.fresh id r' hg hs).2] at hst'; cases hst'
+    | some r =>
+      obtain ⟨r2, h1, h2, _⟩ := g.keep id r hs
+      rw [hg] at h1; injection h1 with h1; subst h1
+      obtain ⟨i, hi⟩ := List.mem_iff_getElem?.1 hst'
+      obtain ⟨st, k1, k2⟩ := getElem?_of_map_eraseNext
+        (congrArg Prod.snd h2 : r'.states.map eraseNext = r.states.map eraseNext).symm hi
+      rw [← (eraseNext_fields k2).1]
+      exact g.seqMono _ _ (h.creators id r hs st (List.mem_of_getElem? k1))
 
 -- ---------------------------------------------------------------- Good: rollapp-side helpers
 
